@@ -994,6 +994,8 @@ def digest(ac):
 def run(ctx, res):
     from . import genarith
     genarith.regenerate(ctx.pid, "audit", res)   # regenerated tie: overstatement assorter, u bound, tally margins (DESIGN 2.1)
+    genarith.regenerate(ctx.pid, "assorter_skeletons", res)   # whole-function skeletons: as_vote, get_vote_for, has_one_vote,
+    #                                   make_plurality_assertions, make_supermajority_assertion, Contest.tally, find_margin_from_tally
     rng = ctx.rng
     stats_novalid[0] = 0
     n_worlds = ctx.n(260, 4000)
